@@ -227,13 +227,15 @@ def _index_type_instances():
             out.append(dict(part="index-type", src=f"export function f() -> void {{ {cont}; {acc.format(lit)}; }}", expect=False))
     # a compiler object that is used for several texts: each text is judged on its own (functions not exported, distinct names)
     seqs = [
-        ("function s{0}(int i) -> void {{ int[4] a; a[i]; }}", "function s{0}(float i) -> void {{ int[4] a; a[i]; }}".replace("float i", "float i"), "index type after an accepted text of the same layout"),
+        ("function s{0}(int   i) -> void {{ int[4] a; a[i]; }}", "function s{0}(float i) -> void {{ int[4] a; a[i]; }}", "index type after an accepted text of the same layout"),
+        ("function s{0}(uint   i) -> void {{ float4 a; a[i]; }}", "function s{0}(float2 i) -> void {{ float4 a; a[i]; }}", "vector index type after an accepted text of the same layout"),
         ("function s{0}(int q) -> void {{ int[4] a; a[3]; }}", "function s{0}(int q) -> void {{ int[4] a; a[4]; }}", "bounds after an accepted text of the same layout"),
         ("function s{0}(int q) -> void {{ float4 a; a.xyz; }}", "function s{0}(int q) -> void {{ float4 a; a.xyr; }}", "swizzle mask after an accepted text of the same layout"),
         ("function s{0}(int q) -> void {{ float3 a; a.xyz; }}", "function s{0}(int q) -> void {{ float3 a; a.xyw; }}", "swizzle component after an accepted text of the same layout"),
         ("function s{0}(int q) -> void {{ float3x3 a; a[2][1]; }}", "function s{0}(int q) -> void {{ float3x3 a; a[2][3]; }}", "matrix bounds after an accepted text of the same layout"),
     ]
     for k, (good, bad, label) in enumerate(seqs):
+        assert len(good.format(0)) == len(bad.format(1)), (good, bad)
         out.append(dict(part="index-type", sequence=[good.format(2 * k), bad.format(2 * k + 1)], expect_last=False, label=label))
         out.append(dict(part="index-type", sequence=[good.format(2 * k), good.format(2 * k + 1).replace("a[3]", "a[2]")], expect_last=True, label=label + " (second text valid)"))
     return out
